@@ -4,6 +4,7 @@ import (
 	"bytes"
 	"encoding/json"
 	"fmt"
+	"os"
 	"sort"
 	"strconv"
 	"strings"
@@ -390,4 +391,127 @@ func runC12(c *run.Ctx, s *kit.Summary) {
 		}
 	}
 	ha.Diff(c.Driver, s)
+	reportPlumbing(c, s, r)
+}
+
+// reportPlumbing drives the report command in-process (vegeta built with -tags verif) with
+// `-type=json -buckets=…` and `-type=hist[…]` over encoded result files whose results carry
+// repeated and distinct errors, and checks that the rendered bucket counts are the partition.
+func reportPlumbing(c *run.Ctx, s *kit.Summary, r *kit.Rng) {
+	type job struct {
+		spec  string
+		lats  []int64
+		bs    []int64
+		file  string
+		jsonO string
+		histO string
+	}
+	var jobs []job
+	var ops []string
+	n := c.N(60, 1500)
+	for i := 0; i < n; i++ {
+		hc := genHistCase(r, true)
+		if hc.Buckets[0] < 0 {
+			continue
+		}
+		// textual spec of the bounds (the implicit zero bound is added by the parser when the first is positive)
+		var parts []string
+		for _, b := range hc.Buckets {
+			parts = append(parts, time.Duration(b).String())
+		}
+		spec := "[" + strings.Join(parts, r.PickStr([]string{",", ", ", " ,"})) + "]"
+		bs := hc.Buckets
+		if bs[0] > 0 {
+			bs = append([]int64{0}, bs...)
+		}
+		j := job{spec: spec, bs: bs, file: fmt.Sprintf("%s/c12_%d.gob", c.Work, i)}
+		f, err := os.Create(j.file)
+		if err != nil {
+			panic(err)
+		}
+		enc := vegeta.NewEncoder(f)
+		t0 := time.Unix(1600000000, 0)
+		errs := []string{"", "", "boom", "boom", "other failure", "timeout"}
+		for k, l := range hc.Lats {
+			if l < 0 {
+				l = 0
+			}
+			j.lats = append(j.lats, l)
+			code := uint16(200)
+			e := errs[r.Pick(len(errs))]
+			if e != "" {
+				code = 500
+			}
+			enc.Encode(&vegeta.Result{Attack: "a", Seq: uint64(k), Code: code, Timestamp: t0.Add(time.Duration(k) * time.Millisecond),
+				Latency: time.Duration(l), Error: e, Method: "GET", URL: "http://x/"})
+		}
+		f.Close()
+		j.jsonO, j.histO = j.file+".json", j.file+".hist"
+		ops = append(ops,
+			fmt.Sprintf("report %s 0 %s %s %s", kit.HexS("json"), kit.HexS(spec), kit.HexS(j.jsonO), kit.HexS(j.file)),
+			fmt.Sprintf("report %s 0 - %s %s", kit.HexS("hist"+spec), kit.HexS(j.histO), kit.HexS(j.file)))
+		jobs = append(jobs, j)
+	}
+	outs, err := kit.RunVegeta(c.Vegeta, ops)
+	if err != nil {
+		s.Diverge("c12.report", "(vegeta-verif failure)", err.Error(), "")
+		return
+	}
+	for i, j := range jobs {
+		s.Case("report:"+j.spec+fmt.Sprint(len(j.lats)), len(j.lats) > 0)
+		s.Count("report:results=" + fmt.Sprint(min(len(j.lats)/10*10, 60)))
+		ref := make([]uint64, len(j.bs))
+		for _, l := range j.lats {
+			for b := range j.bs {
+				if l >= j.bs[b] && (b == len(j.bs)-1 || l < j.bs[b+1]) {
+					ref[b]++
+				}
+			}
+		}
+		in := map[string]interface{}{"buckets_spec": j.spec, "latencies": j.lats}
+		if outs[2*i] != "ok" || outs[2*i+1] != "ok" {
+			if len(j.lats) > 0 { // an empty result file has no detectable encoding: not in the quantifier
+				s.Violate(kit.Violation{Kind: "report_buckets_failed", What: "report command failed on a valid bucket specification", Input: in, Observed: outs[2*i] + " / " + outs[2*i+1]})
+			}
+			continue
+		}
+		// JSON report: "buckets": {"<ns>": count, …}
+		var m struct {
+			Buckets  map[string]uint64 `json:"buckets"`
+			Requests uint64            `json:"requests"`
+		}
+		b, _ := os.ReadFile(j.jsonO)
+		if err := json.Unmarshal(b, &m); err != nil {
+			s.Violate(kit.Violation{Kind: "report_json_unparsable", What: "JSON report is not valid JSON", Input: in, Observed: string(b)})
+			continue
+		}
+		okJ := len(m.Buckets) == len(j.bs)
+		var sum uint64
+		for k, bnd := range j.bs {
+			got, present := m.Buckets[strconv.FormatInt(bnd, 10)]
+			sum += got
+			if !present || got != ref[k] {
+				okJ = false
+			}
+		}
+		if !okJ || sum != uint64(len(j.lats)) {
+			s.Violate(kit.Violation{Kind: "report_json_buckets", What: "bucket counts in the JSON report (-type=json -buckets) are not the partition of the results",
+				Input: in, Expected: fmt.Sprint(ref), Observed: fmt.Sprint(m.Buckets)})
+		}
+		hb, _ := os.ReadFile(j.histO)
+		_, rows := parseHistText(hb)
+		okT := len(rows) == len(j.bs)
+		for k := 0; okT && k < len(rows); k++ {
+			if rows[k][2] != strconv.FormatUint(ref[k], 10) || rows[k][0] != time.Duration(j.bs[k]).String() {
+				okT = false
+			}
+		}
+		if !okT {
+			s.Violate(kit.Violation{Kind: "report_hist_buckets", What: "rows of the text histogram report (-type=hist[…]) are not the partition of the results",
+				Input: in, Expected: fmt.Sprint(ref), Observed: string(hb)})
+		}
+		os.Remove(j.file)
+		os.Remove(j.jsonO)
+		os.Remove(j.histO)
+	}
 }
